@@ -363,7 +363,8 @@ fn project(h: &History, tag: u8) -> Vec<NEv> {
                         let k = inst_owner.get(&(*pup, *inst)).map_or(0, |x| x.1);
                         format!("p{pup}.{k}>{}", norm_msg(msg, &mut errs))
                     }
-                    other => other.short(),
+                    Site::TapDown { tap, sub, msg } => format!("t{tap}.{sub}v{}", norm_msg(msg, &mut errs)),
+                    Site::TapUp { tap, sub, msg } => format!("t{tap}.{sub}^{}", norm_msg(msg, &mut errs)),
                 };
                 out.push(NEv::Enter(s));
             }
@@ -397,6 +398,13 @@ fn solo(sc: &Scenario, h: &History, tag: u8) -> Scenario {
             }
             _ => {}
         }
+    }
+    if sc.sink_kind == SinkKind::ForEachShared {
+        // the same for_each value applied to member `tag` alone; tags and puppet ids stay as they are
+        let mut s = sc.clone();
+        s.fe_only = Some(tag);
+        s.schedule = sc.schedule.iter().filter(|st| matches!(st, Step::Pup { owner, .. } if *owner == tag)).cloned().collect();
+        return s;
     }
     let mut s = sc.clone();
     let mut spec = sc.sinks.get(tag as usize).cloned().unwrap_or_default();
@@ -457,7 +465,7 @@ pub fn c13(cx: &Ctx) -> Vec<Finding> {
         let inter = project(cx.h, tag);
         let solo_sc = solo(cx.sc, cx.h, tag);
         let solo_h = world::run(&solo_sc);
-        let alone = project(&solo_h, 0);
+        let alone = project(&solo_h, if cx.sc.sink_kind == SinkKind::ForEachShared { tag } else { 0 });
         if inter != alone {
             // first difference
             let k = inter.iter().zip(alone.iter()).position(|(a, b)| a != b).unwrap_or(inter.len().min(alone.len()));
@@ -478,6 +486,17 @@ pub fn c13(cx: &Ctx) -> Vec<Finding> {
 }
 
 pub fn nt_c13(cx: &Ctx) -> bool {
+    if cx.sc.sink_kind == SinkKind::ForEachShared {
+        // both applications of the one for_each value consumed data
+        let (own, _, _) = owners(cx.h);
+        let mut seen = [false; 2];
+        for (i, e) in cx.h.log.iter().enumerate() {
+            if matches!(e, Ev::Call { kind: CallKind::ForEachF, .. }) && (own[i] as usize) < 2 {
+                seen[own[i] as usize] = true;
+            }
+        }
+        return seen[0] && seen[1];
+    }
     // both subscriptions received data and their steps actually interleaved
     let a = cx.subs.iter().any(|s| s.sink == 0 && !cx.probe_data(s).is_empty());
     let b = cx.subs.iter().any(|s| s.sink == 1 && !cx.probe_data(s).is_empty());
